@@ -1,6 +1,7 @@
 import Gzx.Util
 import Gzx.Ref.Aztec
 import Gzx.Model.AztecDecoder
+import Gzx.Model.AztecRS
 import Gzx.Proofs.AztecLink
 namespace Gzx.Driver.C11
 open Gzx Gzx.Ref.Aztec
@@ -126,7 +127,9 @@ def decHandle : List String → String
       let m := parseRows rows
       if m.length ≠ AztecDecoder.matrixSize l compact ∨ m.any (·.length ≠ m.length) then "OUT-OF-DOMAIN"
       else
-      match AztecDecoder.decode AztecLink.refTables (regOf opts) AztecDecoder.rsMirror m compact dw l with
+      -- `decodeFull` = `decode` with `rsModel` (the C04 model of ReedSolomonDecoder.Decode): the function the
+      -- theorems aztec_decode_ref / aztec_tolerates_errors / C06Aztec.aztec_decode_total are about
+      match AztecDecoder.decodeFull AztecLink.refTables (regOf opts) m compact dw l with
       | .ok d => s!"{showSegs d.segs} raw={showHex d.rawBytes} nbits={d.numBits} ec={d.ecLevel}"
       | .error e => "ERR:" ++ e.tag
     | _, _, _ => "bad-op"
@@ -158,7 +161,7 @@ def decHandle : List String → String
       match AztecDecoder.getRotation AztecLink.refExpectedCornerBits sides length with
       | .error e => "ERR:" ++ e.tag
       | .ok s =>
-        match AztecDecoder.correctedParameters AztecDecoder.rsMirror compact
+        match AztecDecoder.correctedParameters AztecDecoder.rsModel compact
                 (AztecDecoder.parameterData compact sides s) with
         | .ok (l, dw) => s!"ok shift={s} layers={l} dw={dw}"
         | .error e => "ERR:" ++ e.tag
